@@ -201,7 +201,11 @@ func c17GenDesc(r *rng) string {
 }
 
 func c17DescOK(d string) bool { return !strings.ContainsAny(d, "\n\r") }
-func c17ResOK(p []byte) bool  { return !bytes.ContainsAny(p, ">\n\r") }
+func c17NoCR(d string) bool   { return !strings.Contains(d, "\r") }
+
+// c17OneLine: what the writer makes of a description (Gts.Fasta.nl2sp)
+func c17OneLine(d string) string { return strings.ReplaceAll(d, "\n", " ") }
+func c17ResOK(p []byte) bool     { return !bytes.ContainsAny(p, ">\n\r") }
 
 func c17ToCRLF(t []byte) []byte { return bytes.ReplaceAll(t, []byte("\n"), []byte("\r\n")) }
 
@@ -279,16 +283,24 @@ func c17RoundTrip(r *Run, recs []c17Rec, tag string) {
 		if out != encBytes(one) {
 			r.fail(Failure{Oracle: "fasta.write op equals Fasta.WriteTo", Op: wop, Got: out})
 		}
-		if c17DescOK(rec.desc) && c17ResOK(rec.data) {
-			c17Layout(r, rec.desc, rec.data, one, wop)
+		if c17NoCR(rec.desc) && c17ResOK(rec.data) {
+			c17Layout(r, c17OneLine(rec.desc), rec.data, one, wop)
 		}
 		text = append(text, one...)
 	}
-	inDomain := true
+	// inDomain: the property's quantifier.  readable: the wider domain of theorem
+	// parse_write_one_nl (line feeds inside a description are written as blanks: "description
+	// on one line"), on which the records must still come back, with the blanks.
+	inDomain, readable := true, true
 	key := tag
-	for _, rec := range recs {
+	want := make([]c17Rec, len(recs))
+	for i, rec := range recs {
+		want[i] = c17Rec{c17OneLine(rec.desc), rec.data}
 		if !c17DescOK(rec.desc) || !c17ResOK(rec.data) {
 			inDomain = false
+		}
+		if !c17NoCR(rec.desc) || !c17ResOK(rec.data) {
+			readable = false
 		}
 		key += fmt.Sprintf("|%s|%x", rec.desc, rec.data)
 		r.count(fmt.Sprintf("len mod 70 = %d", len(rec.data)%70))
@@ -317,16 +329,19 @@ func c17RoundTrip(r *Run, recs []c17Rec, tag string) {
 			}
 			line := opn + encBytes(t)
 			out := r.op(line)
-			if !inDomain {
+			if !readable {
 				continue
+			}
+			if !inDomain {
+				r.count("description with line feeds (read back with blanks)")
 			}
 			got := c17Scan(t, auto)
 			if c17EncScan(got) != out {
 				r.fail(Failure{Oracle: "scan op is deterministic", Op: line, Got: out})
 			}
-			if !c17SameRecs(got.recs, recs) || !got.clean || got.notFasta {
+			if !c17SameRecs(got.recs, want) || !got.clean || got.notFasta {
 				r.fail(Failure{Oracle: fmt.Sprintf("%s text of %d record(s) reads back as the same records in order, without error (%s)", name, len(recs), strings.TrimSpace(opn)),
-					Op: line, Got: out, Want: c17ShowRecs(recs)})
+					Op: line, Got: out, Want: c17ShowRecs(want)})
 			}
 		}
 	}
@@ -346,11 +361,12 @@ func c17GenBankToFasta(r *Run, version, definition string, data []byte, slice bo
 		r.count("genbank/whole")
 	}
 	out := r.op(line)
-	ok := c17DescOK(wantDesc) && c17ResOK(data)
-	r.eval(line, ok)
-	if !ok {
+	// multi-line definitions: the line feeds come back as blanks (theorem genbank_to_fasta)
+	r.eval(line, c17DescOK(wantDesc) && c17ResOK(data))
+	if !c17NoCR(wantDesc) || !c17ResOK(data) {
 		return
 	}
+	wantDesc = c17OneLine(wantDesc)
 	if out == "ERR" || out == "PANIC" || out == "GENBANK" {
 		r.fail(Failure{Oracle: "a GenBank record can be written as FASTA", Op: line, Got: out})
 		return
@@ -403,11 +419,12 @@ func c17Corpus(r *Run) {
 			line := "fasta.scan " + encBytes(b.Bytes())
 			out := r.op(line)
 			r.op("fasta.scanp " + encBytes(c17ToCRLF(b.Bytes())))
-			ok := c17DescOK(wantDesc) && c17ResOK(seq.Bytes())
-			r.eval("corpus|"+fn+itoa(n), ok)
-			if !ok {
+			r.eval("corpus|"+fn+itoa(n), c17DescOK(wantDesc) && c17ResOK(seq.Bytes()))
+			if !c17NoCR(wantDesc) || !c17ResOK(seq.Bytes()) {
+				r.notes = append(r.notes, "corpus record outside the readable domain: "+filepath.Base(fn))
 				continue
 			}
+			wantDesc = c17OneLine(wantDesc)
 			want := []c17Rec{{wantDesc, seq.Bytes()}}
 			for _, t := range [][]byte{b.Bytes(), c17ToCRLF(b.Bytes())} {
 				got := c17Scan(t, true)
